@@ -42,6 +42,7 @@ import (
 	"github.com/relex/slog-agent/rewrite/rcopy"
 	"github.com/relex/slog-agent/rewrite/rinline"
 	"github.com/relex/slog-agent/rewrite/runescape"
+	"github.com/relex/slog-agent/util"
 	"github.com/vmihailenco/msgpack/v4"
 	"github.com/vmihailenco/msgpack/v4/codes"
 )
@@ -524,6 +525,8 @@ func c10Run(c *Case) (out string, fails []Fail) {
 		return c10RunDecoder(c)
 	case 2:
 		return c10RunUnescape(c)
+	case 3:
+		return c10RunRewriterMem(c)
 	}
 	cc, err := c10Parse(c)
 	if err != nil || cc.M < 1 || cc.nrec < len(cc.schema) || cc.nout < 1 {
@@ -612,14 +615,18 @@ func c10Run(c *Case) (out string, fails []Fail) {
 		}
 	}
 
+	// The field strings of every record ALIAS one arena that is overwritten from record to record, as the fields of
+	// parsed records alias the pooled backing buffer of the raw input (util.StringFromBytes over a recycled buffer):
+	// field i always starts at the same offset, so equal-length values of consecutive records occupy the same bytes.
+	// Anything a serializer / rewriter instance keeps that still points into a released record shows up as another
+	// record's value in a later event.
+	arena := c10NewArena(cc.recs, cc.nrec)
+	record := &base.LogRecord{} // ONE record object (and one Fields slice) for the whole history: records are pooled too
 	var recOuts []string
 	for ri := range cc.recs {
 		rc := &cc.recs[ri]
-		fields := make(base.LogFields, len(rc.fields))
-		for i, v := range rc.fields {
-			fields[i] = v
-		}
-		record := &base.LogRecord{Fields: fields, RawLength: 1, Timestamp: time.Unix(rc.unix, rc.nsec), Unescaped: rc.unescaped}
+		fields := arena.load(rc.fields)
+		*record = base.LogRecord{Fields: fields, RawLength: 1, Timestamp: time.Unix(rc.unix, rc.nsec), Unescaped: rc.unescaped}
 		wantEntries, wantSize, unescNow := c10Expected(cc, rc, nil)
 		var outs []string
 		for j, ser := range sers {
@@ -693,6 +700,46 @@ func c10Run(c *Case) (out string, fails []Fail) {
 		recOuts = append(recOuts, strings.Join(outs, ";"))
 	}
 	return strings.Join(recOuts, "/"), fails
+}
+
+// c10Arena: one backing buffer for the fields of all records of a history; slot i (the maximum length of field i
+// over the history) holds field i of the current record.
+type c10Arena struct {
+	mem    []byte
+	offs   []int
+	fields base.LogFields
+}
+
+func c10NewArena(recs []c10Rec, nrec int) *c10Arena {
+	a := &c10Arena{offs: make([]int, nrec+1)}
+	for i := 0; i < nrec; i++ {
+		m := 0
+		for _, rc := range recs {
+			if i < len(rc.fields) && len(rc.fields[i]) > m {
+				m = len(rc.fields[i])
+			}
+		}
+		a.offs[i+1] = a.offs[i] + m
+	}
+	a.mem = make([]byte, a.offs[nrec]+1)
+	return a
+}
+
+// load overwrites the arena with the given values (the previous record is "released") and returns zero-copy strings
+func (a *c10Arena) load(vals []string) base.LogFields {
+	for i := range a.mem {
+		a.mem[i] = 0xA5
+	}
+	if len(a.fields) != len(vals) {
+		a.fields = make(base.LogFields, len(vals))
+	}
+	fields := a.fields
+	for i, v := range vals {
+		dst := a.mem[a.offs[i] : a.offs[i]+len(v)]
+		copy(dst, v)
+		fields[i] = util.StringFromBytes(dst)
+	}
+	return fields
 }
 
 func uniq(xs []string) []string {
